@@ -136,6 +136,70 @@ Proof.
   destruct (j0 =? j)%nat eqn:E; simpl; rewrite IHl; reflexivity.
 Qed.
 
+(** summing by a key: [+= w k] at [f k] for every [k] of a list *)
+Lemma fold_addat_wsum {A} (f : A -> nat) (w : A -> Z) (L : list A) : forall v i,
+  (forall k, In k L -> (f k < length v)%nat) -> (i < length v)%nat ->
+  nthZ (fold_left (fun v k => addat v (f k) (w k)) L v) i =
+  nthZ v i + sumZ (map w (filter (fun k => (f k =? i)%nat) L)).
+Proof.
+  induction L as [|a t IH]; intros v i Hf Hi; simpl; [lia|].
+  rewrite IH.
+  - rewrite nthZ_addat by (apply Hf; left; reflexivity).
+    rewrite (Nat.eqb_sym (f a) i). destruct (i =? f a)%nat eqn:E; simpl; [apply Nat.eqb_eq in E; subst|]; lia.
+  - intros k Hk. rewrite length_addat. apply Hf. right; exact Hk.
+  - rewrite length_addat. exact Hi.
+Qed.
+
+Lemma length_fold_addat_w {A} (f : A -> nat) (w : A -> Z) (L : list A) : forall v,
+  length (fold_left (fun v k => addat v (f k) (w k)) L v) = length v.
+Proof. induction L as [|x t IH]; intros v; simpl; [reflexivity|]. rewrite IH. apply length_addat. Qed.
+
+Lemma filter_map_const_fst_list (j0 j : nat) (l : list nat) :
+  filter (fun k : nat * nat => (fst k =? j)%nat) (map (fun p => (j0, p)) l) =
+  if (j0 =? j)%nat then map (fun p => (j0, p)) l else [].
+Proof.
+  induction l as [|q l IHl]; simpl; [destruct (j0 =? j)%nat; reflexivity|].
+  destruct (j0 =? j)%nat eqn:E; simpl; rewrite IHl; reflexivity.
+Qed.
+
+Lemma filter_job_keys_list (I : instance) : forall j0 j,
+  filter (fun k => (fst k =? j)%nat) (all_keys_from j0 I) =
+  if (j0 <=? j)%nat then job_keys j (nth (j - j0) I []) else [].
+Proof.
+  induction I as [|job t IH]; intros j0 j; simpl.
+  - destruct (j0 <=? j)%nat; destruct (j - j0)%nat; reflexivity.
+  - rewrite filter_app, IH. unfold job_keys at 1. rewrite filter_map_const_fst_list.
+    destruct (j0 =? j)%nat eqn:E1.
+    + apply Nat.eqb_eq in E1. subst j0. rewrite Nat.leb_refl, Nat.sub_diag.
+      replace (S j <=? j)%nat with false by (symmetry; apply Nat.leb_gt; lia).
+      rewrite app_nil_r. reflexivity.
+    + apply Nat.eqb_neq in E1. destruct (j0 <=? j)%nat eqn:E2.
+      * apply Nat.leb_le in E2. replace (S j0 <=? j)%nat with true by (symmetry; apply Nat.leb_le; lia).
+        replace (j - j0)%nat with (S (j - S j0)) by lia. reflexivity.
+      * apply Nat.leb_gt in E2. replace (S j0 <=? j)%nat with false by (symmetry; apply Nat.leb_gt; lia). reflexivity.
+Qed.
+
+Lemma job_keys_of_all (I : instance) j :
+  filter (fun k => (fst k =? j)%nat) (all_keys I) = job_keys j (get_job I j).
+Proof. unfold all_keys, get_job. rewrite filter_job_keys_list. simpl. rewrite Nat.sub_0_r. reflexivity. Qed.
+
+Lemma list_as_map_seq {A} (d : A) (l : list A) : l = map (fun q => nth q l d) (seq 0 (length l)).
+Proof.
+  induction l as [|a t IH]; [reflexivity|]. cbn [length seq map nth]. f_equal.
+  rewrite <- seq_shift, map_map. exact IH.
+Qed.
+
+Lemma job_keys_durations (I : instance) j :
+  map (kdur I) (job_keys j (get_job I j)) = map duration (get_job I j).
+Proof.
+  unfold job_keys. rewrite map_map.
+  rewrite (list_as_map_seq (mkop [] 0) (get_job I j)) at 2. rewrite map_map.
+  apply map_ext_in. intros q Hq. apply in_seq in Hq.
+  destruct (get_op_of_pos_lt I j q ltac:(lia)) as [o Ho]. rewrite (kdur_of I j q o Ho).
+  unfold get_op, get_job in *. destruct (nth_error I j) as [jb|] eqn:Ej; [|discriminate].
+  rewrite (nth_error_nth _ _ _ Ej). rewrite (nth_error_nth _ _ _ Ho). reflexivity.
+Qed.
+
 (** operations of one job among all keys *)
 Lemma filter_job_keys_from (I : instance) : forall j0 j,
   length (filter (fun k => (fst k =? j)%nat) (all_keys_from j0 I)) =
@@ -343,8 +407,7 @@ Section Closed.
   Definition flagj_vec (d : dstate) : list Z :=
     map (fun j => b2z ((0 <? joblen j)%nat && (nthN (jnext d) j =? joblen j)%nat)) (seq 0 J).
   (** machine-level: what was there initially minus what was dispatched on the machine *)
-  Definition remm0 : list Z :=
-    fold_left (fun v k => fold_left (fun v mm => addat v mm 1) (dedup_nat (kmachines I k)) v) (all_keys I) (zeros M).
+  Definition remm0 : list Z := count_mach I (all_keys I) (zeros M).
   Definition remm_vec (d : dstate) : list Z :=
     map (fun mm => nthZ remm0 mm - Z.of_nat (length (nth mm (sched d) []))) (seq 0 M).
   Definition durm_vec (d : dstate) : list Z :=
@@ -356,8 +419,9 @@ Section Closed.
   Lemma row_init mm : nth mm (sched (init_d I)) [] = [].
   Proof. unfold init_d. cbn [sched]. apply nth_repeat_default. Qed.
 
-  Lemma remj_vec_init : fold_left (fun v k => addat v (fst k) 1) (all_keys I) (zeros J) = remj_vec (init_d I).
+  Lemma remj_vec_init : count_jobs (all_keys I) (zeros J) = remj_vec (init_d I).
   Proof.
+    unfold count_jobs.
     apply vec_eq_map_seq.
     - rewrite length_fold_addat. apply repeat_length.
     - intros j Hj. rewrite fold_addat_count.
@@ -375,18 +439,23 @@ Section Closed.
   Qed.
 
   Lemma length_remm0 : length remm0 = M.
-  Proof. unfold remm0. rewrite length_fold_fold_addat. apply repeat_length. Qed.
+  Proof. unfold remm0, count_mach. rewrite length_fold_fold_addat. apply repeat_length. Qed.
 
   Lemma remm_vec_init : remm0 = remm_vec (init_d I).
   Proof.
     apply vec_eq_map_seq; [apply length_remm0|]. intros mm _. rewrite row_init. simpl. lia.
   Qed.
 
-  Lemma durj_vec_init : job_durations I = durj_vec (init_d I).
+  Lemma durj_vec_init : dur_jobs I (init_d I) = durj_vec (init_d I).
   Proof.
-    unfold job_durations, durj_vec, J, num_jobs.
-    rewrite (map_nth_seq (fun job => sumZ (map duration job)) I).
-    apply map_ext. intros j. rewrite jnext_init. reflexivity.
+    unfold dur_jobs. rewrite unscheduled_init. apply vec_eq_map_seq.
+    - rewrite length_fold_addat_w. apply repeat_length.
+    - intros j Hj. rewrite fold_addat_wsum.
+      + rewrite job_keys_of_all, job_keys_durations, jnext_init. unfold nthZ, zeros. rewrite nth_repeat by exact Hj.
+        simpl. lia.
+      + intros [j' q] Hk. unfold zeros. rewrite repeat_length. apply In_all_keys in Hk. destruct Hk as [o Ho].
+        cbn [fst]. apply (get_op_job_lt _ _ _ _ Ho).
+      + unfold zeros. rewrite repeat_length. exact Hj.
   Qed.
 
   Lemma length_machine_loads : length (machine_loads I) = M.
